@@ -166,7 +166,7 @@ func genPool(t *rapid.T, idx int, allowMut bool) poolSpec {
 	}
 	if allowMut {
 		muts := []string{"outside_hi", "outside_lo", "reversed", "badliteral", "nogateway", "nosubnet", "nonodesubnet",
-			"badrangejson"}
+			"badrangejson", "gateway_outside"}
 		if len(ranges) >= 2 {
 			muts = append(muts, "unsorted", "overlap", "adjacent", "unsorted", "overlap", "adjacent")
 		}
@@ -205,6 +205,15 @@ func genPool(t *rapid.T, idx int, allowMut bool) poolSpec {
 		case "badliteral":
 			ips[i] = rapid.SampledFrom([]string{"1.2.3", "abc", "", "1.2.3.4-1.2.3.5", "1.2.3.256", "1.2.3.4~", "~1.2.3.4",
 				"1.2.3.4~~1.2.3.5", " ", "1.2.3.4/24", "1.2.3.4,1.2.3.5"}).Draw(t, "badLit")
+		case "gateway_outside":
+			// the gateway lies in a neighbouring network of the same size; whether this is accepted is left open, but an
+			// accepted pool must still have its ranges inside the pool's own subnet and must round-trip
+			if l < 2 || l > 30 {
+				applied = false
+			} else {
+				other := base ^ (uint32(1) << (32 - uint(l)))
+				fields["gateway"] = ipStr(other + 1)
+			}
 		case "nogateway":
 			delete(fields, "gateway")
 		case "nosubnet":
@@ -319,6 +328,25 @@ func checkC20(c c20Case, r *vcore.Rec) *vcore.Failure {
 	}
 	var pools []*floatingip.FloatingIPPool
 	err := json.Unmarshal([]byte(confText), &pools)
+	if invalid == "gateway_outside" {
+		if err != nil {
+			return nil
+		}
+		for _, p := range pools {
+			for _, rg := range p.IPRanges {
+				if !p.IPNet().Contains(rg.First) || !p.IPNet().Contains(rg.Last) {
+					return vcore.Failf("c20:accepted_outside_pool_subnet", "accepted configuration has range %s outside the pool's subnet %s: %s",
+						rg.String(), p.IPNet(), confText)
+				}
+			}
+			data, merr := json.Marshal(p)
+			var back floatingip.FloatingIPPool
+			if merr != nil || json.Unmarshal(data, &back) != nil {
+				return vcore.Failf("c20:roundtrip", "accepted pool does not round-trip: %s", data)
+			}
+		}
+		return nil
+	}
 	if invalid != "" {
 		if err == nil {
 			return vcore.Failf("c20:accepted_invalid:"+invalid, "configuration with mutation %q was accepted: %s", invalid, confText)
